@@ -127,9 +127,14 @@ def expandVarsGo (T : Tables) (E : Env) : Nat → Str → Str
 
 def expandVars (T : Tables) (E : Env) (s : Str) : Str := expandVarsGo T E s.length s
 
+/-- the text before the first `c`, and the rest from that `c` on -/
+def splitAtChar (c : Char) : Str → Str × Str
+  | [] => ([], [])
+  | a :: r => if a == c then ([], a :: r) else ((a :: (splitAtChar c r).1), (splitAtChar c r).2)
+
 /-- `str.partition(c)` / first piece of `split` -/
 def splitAt1 (c : Char) (s : Str) : Str × Option Str :=
-  match s.span (· != c) with
+  match splitAtChar c s with
   | (a, []) => (a, none)
   | (a, _ :: b) => (a, some b)
 
@@ -145,7 +150,7 @@ def splitOn (c : Char) : Nat → Str → List Str
 def expandUser (E : Env) (p : Str) : Str :=
   match p with
   | '~' :: rest =>
-    let (user, tail) := rest.span (· != '/')
+    let (user, tail) := splitAtChar '/' rest
     match E.home user with
     | none => p
     | some h =>
@@ -170,26 +175,46 @@ def expandPath (T : Tables) (E : Env) (s : Str) : Str :=
 -- ---------------------------------------------------------------------------- _quote_paths
 def isRawStart (start : Str) : Bool := start.any fun c => c == 'r' || c == 'R'
 
+/-- a path-string prefix (`p'…'`, `pr'…'`, `rp'…'`): `path_literal` applies `expand_path` even when raw -/
+def isPathString (start : Str) : Bool := start.any fun c => c == 'p' || c == 'P'
+
 def hasCtrl (T : Tables) (s : Str) : Bool := T.ctrl.any fun kv => s.contains kv.1
+
+/-- `if start == "" and path_needs_quotes: start = end = _quote_to_use(s)` -/
+def autoQuote (T : Tables) (s start0 end0 : Str) : Str × Str :=
+  if start0.isEmpty && needsQuotes T s then (T.quoteToUse s, T.quoteToUse s) else (start0, end0)
+
+/-- `_tail` -/
+def tailOf (end_ : Str) (isDir : Bool) : Str :=
+  if isDir then ['/'] else if end_.isEmpty then [' '] else []
+
+/-- `needs_raw` -/
+def needsRaw (T : Tables) (s : Str) : Bool := (s.contains bs || s.contains '$') && !hasCtrl T s
+
+/-- `if start != "" and "r" not in start.lower() and needs_raw: start = f"r{start}"` -/
+def effStart (T : Tables) (s start : Str) : Str :=
+  if !start.isEmpty && !isRawStart start && needsRaw T s then 'r' :: start else start
+
+/-- the escaping passes over `x` = the candidate with its tail (`s0` = the candidate itself): trailing
+backslash of a raw string doubled, backslashes doubled in a non-raw string, the closing quote escaped,
+control characters translated — in this order -/
+def escBody (T : Tables) (s0 start end_ x : Str) : Str :=
+  let x := if isRawStart start && !end_.isEmpty && endsWith x [bs] then x ++ [bs] else x
+  let x := if !end_.isEmpty && !isRawStart start then replaceAll [bs] [bs, bs] x else x
+  let x := if isInfix end_ x then replaceAll end_ (end_.flatMap fun c => [bs, c]) x else x
+  if hasCtrl T s0 then translate T.ctrl x else x
+
+/-- `start + s + end` (or without the end), and the trailing space of a quoted non-directory -/
+def wrap (start end_ body : Str) (isDir appendEnd : Bool) : Str :=
+  let t := if appendEnd then start ++ body ++ end_ else start ++ body
+  if !isDir && !end_.isEmpty && appendEnd then t ++ [' '] else t
 
 /-- one iteration of the loop of `_quote_paths` (POSIX: sep = "/"), `isDir` = the outcome of its
 `os.path.isdir` test -/
 def quoteOne (T : Tables) (s start0 end0 : Str) (isDir appendEnd : Bool) : Str :=
-  let pnq := needsQuotes T s
-  let auto := start0.isEmpty && pnq
-  let start := if auto then T.quoteToUse s else start0
-  let end_ := if auto then T.quoteToUse s else end0
-  let tail : Str := if isDir then ['/'] else if end_.isEmpty then [' '] else []
-  let ctrl := hasCtrl T s
-  let needsRaw := (s.contains bs || s.contains '$') && !ctrl
-  let start := if !start.isEmpty && !isRawStart start && needsRaw then 'r' :: start else start
-  let s := s ++ tail
-  let s := if isRawStart start && !end_.isEmpty && endsWith s [bs] then s ++ [bs] else s
-  let s := if !end_.isEmpty && !isRawStart start then replaceAll [bs] [bs, bs] s else s
-  let s := if isInfix end_ s then replaceAll end_ (end_.flatMap fun c => [bs, c]) s else s
-  let s := if ctrl then translate T.ctrl s else s
-  let s := if appendEnd then start ++ s ++ end_ else start ++ s
-  if !isDir && !end_.isEmpty && appendEnd then s ++ [' '] else s
+  let se := autoQuote T s start0 end0
+  let start := effStart T s se.1
+  wrap start se.2 (escBody T s start se.2 (s ++ tailOf se.2 isDir)) isDir appendEnd
 
 /-- `_normpath` on a name without separators: `rstrip(" ")`, and `normpath("") == "."` -/
 def normName (n : Str) : Str :=
@@ -326,10 +351,13 @@ def unescape : Bool → Str → Option Str
 
 /-- characters that end or change a bare word (tokenizer / lexer / parser rules for subprocess
 arguments): blanks and newlines, quotes, backtick, `$`, `#`, brackets, glob characters, `| & ; < >`,
-and the backslash -/
+the backslash — and the remaining Unicode white space (the source is stripped with `str.strip`) -/
 def bareUnsafe : List Char :=
   [' ', '\t', '\n', '\r', Char.ofNat 0x0b, Char.ofNat 0x0c, sq, dq, '`', '$', '#', '(', ')', '[', ']',
-   '{', '}', '*', '?', '|', '&', ';', '<', '>', bs]
+   '{', '}', '*', '?', '|', '&', ';', '<', '>', bs,
+   Char.ofNat 0x1f, Char.ofNat 0xa0, Char.ofNat 0x1680, Char.ofNat 0x2000, Char.ofNat 0x2001, Char.ofNat 0x2002,
+   Char.ofNat 0x2003, Char.ofNat 0x2004, Char.ofNat 0x2005, Char.ofNat 0x2006, Char.ofNat 0x2007, Char.ofNat 0x2008,
+   Char.ofNat 0x2009, Char.ofNat 0x200a, Char.ofNat 0x202f, Char.ofNat 0x205f, Char.ofNat 0x3000]
 
 /-- the names the lexer turns into AND / OR tokens in subprocess mode (lexer.NEED_WHITESPACE) -/
 def readerKeywords : List Str := [['a', 'n', 'd'], ['o', 'r']]
@@ -360,15 +388,16 @@ def pyStmt (w : Str) : Bool :=
     else if c == ':' then true
     else (c == '+' || c == '-' || c == '%' || c == '^' || c == '@') && r.head? == some '='
 
-def strip (s : Str) : Str := rstripSpaces (s.dropWhile (· == ' '))
-
 /-- a bare word `w`, followed on the line by `after` -/
 def readBare (T : Tables) (E : Env) (w after : Str) : Read :=
   match bangSplit w with
   | some (before, rest) =>
-    -- subprocess macro: everything after the `!`, stripped, is ONE more argument
-    if before.any (fun c => bareUnsafe.contains c) || before.any (oddChar T) || pyStmt before then .unmodelled
-    else .args ((if before.isEmpty then [] else [expandPath T E before]) ++ [strip (rest ++ after)])
+    -- subprocess macro: everything after the `!` up to the end of the command, stripped, is ONE more
+    -- argument (modelled when that text is the rest of this word)
+    if !after.all (· == ' ') then .unmodelled
+    else if before.any (fun c => bareUnsafe.contains c) || rest.any (fun c => bareUnsafe.contains c) then .unmodelled
+    else if before.any (oddChar T) || pyStmt before || readerKeywords.contains before then .unmodelled
+    else .args ((if before.isEmpty then [] else [expandPath T E before]) ++ [rest])
   | none =>
     if !after.all (· == ' ') then .unmodelled
     else if w.any (fun c => bareUnsafe.contains c) then .unmodelled
@@ -404,7 +433,7 @@ def readBack (T : Tables) (E : Env) (text : Str) : Read :=
           | none => .unmodelled
           | some v => .args [expandPath T E v]
     | none =>
-      let (w, after) := text.span (· != ' ')
+      let (w, after) := splitAtChar ' ' text
       if w.isEmpty then (if after.all (· == ' ') then .args [] else .unmodelled)
       else readBare T E w after
 
@@ -427,9 +456,9 @@ def escapedCtrl : List Char := ['\n', '\t', '\r', Char.ofNat 0x0c, Char.ofNat 0x
 
 def when (b : Bool) (c : Cls) : List Cls := if b then [c] else []
 
-def classify (T : Tables) (E : Env) (name o : Str) (typedEmpty : Bool) (m : Mode) (isDirFs : Bool) : List Cls :=
+/-- the classes that depend on the quoting style `_quote_paths` ends up with for the candidate -/
+def styleClasses (T : Tables) (E : Env) (name start0 end0 : Str) (isDirFs : Bool) : List Cls :=
   let s := normName name
-  let (start0, end0, appendEnd) := seenStyle o typedEmpty m
   let auto := start0.isEmpty && needsQuotes T s
   let start := if auto then quoteToUseRef s else start0
   let end_ := if auto then quoteToUseRef s else end0
@@ -439,12 +468,7 @@ def classify (T : Tables) (E : Env) (name o : Str) (typedEmpty : Bool) (m : Mode
   let isDir := isDirEff T E name s isDirFs
   let v := s ++ (if isDir then ['/'] else [])
   let q := end_.head?.getD sq
-  -- is the regular candidate offered at all? (the `~` special case may replace it by r'~')
-  let offered := !tildeSpecial name start0 || tildeKeeps (regular T E name start0 end0 isDirFs appendEnd)
-  when (s != name) .trailingSpace ++
-  when (s.any fun c => unescapedBreaks.contains c) .lineSeparator ++
-  (if !offered then []
-  else if end_.isEmpty then
+  if end_.isEmpty then
     when (bangSplit s).isSome .bangUnquoted ++
     when (s.any (oddChar T)) .oddToken ++
     when (pyStmt s) .pythonStatement ++
@@ -453,15 +477,26 @@ def classify (T : Tables) (E : Env) (name o : Str) (typedEmpty : Bool) (m : Mode
     when (!isDir && endsWith s [bs]) .trailingBackslash ++
     when (isInfix end_ s) .rawQuoteConflict ++
     when ctrl .rawControlChar ++
-    when (end_.length == 3 && !isDir && s.getLast? == some q) .tripleQuoteEnd
+    when (end_.length == 3 && !isDir && s.getLast? == some q) .tripleQuoteEnd ++
+    when (isPathString start && expandVars T E v != v) .dollarExpansion ++
+    when (isPathString start && expandVars T E v == v && expandPath T E v != v) .tildeExpansion
   else
     when (expandVars T E v != v) .dollarExpansion ++
     when (expandVars T E v == v && expandPath T E v != v) .tildeExpansion ++
-    when (end_.length == 3 && !isDir && s.getLast? == some q) .tripleQuoteEnd) ++
+    when (end_.length == 3 && !isDir && s.getLast? == some q) .tripleQuoteEnd
+
+def classify (T : Tables) (E : Env) (name o : Str) (typedEmpty : Bool) (m : Mode) (isDirFs : Bool) : List Cls :=
+  let s := normName name
+  let sty := seenStyle o typedEmpty m
+  -- is the regular candidate offered at all? (the `~` special case may replace it by r'~')
+  let offered := !tildeSpecial name sty.1 || tildeKeeps (regular T E name sty.1 sty.2.1 isDirFs sty.2.2)
+  when (s != name) .trailingSpace ++
+  when (s.any fun c => unescapedBreaks.contains c) .lineSeparator ++
+  (if offered then styleClasses T E name sty.1 sty.2.1 isDirFs else []) ++
   when (m == .closedInside && !loneQuote o typedEmpty m && (stripStringPrefix o).length == 3) .tripleCursorInside ++
   when (m == .closedInside && loneQuote o typedEmpty m) .loneQuoteInside ++
   -- the r'~' entry of the `~` special case always brings its own closing quote
-  when (m == .closedInside && !loneQuote o typedEmpty m && tildeSpecial name start0 && !o.isEmpty) .tildeCursorInside
+  when (m == .closedInside && !loneQuote o typedEmpty m && tildeSpecial name sty.1 && !o.isEmpty) .tildeCursorInside
 
 -- ---------------------------------------------------------------------------- the analyser clause
 /-- what a CommandContext of CompletionContextParser.parse says about the text around the cursor -/
